@@ -12,6 +12,7 @@ import random
 from fractions import Fraction
 
 from . import common
+from . import c05_kernel as kl
 from .common import lst, blit, natlit, qlit
 
 HEADER = """From Coq Require Import List QArith Bool.
@@ -157,13 +158,36 @@ def generate(ctx):
                        "{random, uniform==0, uniform max} + random dyadic triples; distinct = distinct (cur,prop,corr,seed)")
     for c in cases[:2] + [c for c in cases if c["u"] == 0 and c["p"] == 0][:2]:
         ctx.sample({k: str(v) for k, v in c.items()})
-    return cases
+    # ---- kernel level: RWKernel / MHKernel / IWLSKernel transitions ----
+    kcases = kl.generate(ctx, rnd)
+    kdistinct = {(c["fam"], c["kern"], c["epoch"], c["seed"], str(sorted(c["params"].items()))) for c in kcases}
+    ctx.count(len(kcases), len(kdistinct))
+    ctx.cov["rule"] += ("; kernel level: one real kernel.transition per case (RW / MH / IWLS kernel on a DictInterface target with "
+                        "prescribed special log-probs, user corrections and Cholesky factors, and on liesel models with Cauchy / "
+                        "Uniform / Gamma priors) x key strata on the accept key; distinct = distinct (family, kernel, epoch, seed, parameters)")
+    ctx.tested_not_proved.append("kernel level: the accept key is the second half of jax.random.split(prng_key) and the RW / IWLS "
+                                 "proposal is the documented Gaussian draw from the first half (needed to force the uniform draw and to "
+                                 "compute the ingredients independently); adaptation epochs: info and model state only, the dual-averaging "
+                                 "update of the kernel state is not compared")
+    ctx.assume.append("kernel level: the ingredients (current/proposed log-prob via the model interface, correction, uniform draw) are "
+                      "recomputed by the harness outside the kernel; finite values agree up to float32 rounding (tolerance 2^-12 on the probability)")
+    return cases + kcases
 
 
 def emit(ctx, cases):
     shards = []
-    for k in range(0, len(cases), 500):
-        idxs = list(range(k, min(k + 500, len(cases))))
+    kidx = [i for i, c in enumerate(cases) if c.get("kind") == "kernel"]
+    for k in range(0, len(kidx), 400):
+        idxs = kidx[k:k + 400]
+        txt = HEADER + f"""From LV Require Import Goose.MHKernel.
+Definition kcases : list kcase := {lst([kl.row(cases[i]) for i in idxs])}.
+Lemma shard_ok : forallb (kagrees Lt) kcases = true.
+Proof. vm_compute. reflexivity. Qed.
+"""
+        shards.append((ctx.new_shard(txt), idxs))
+    nmh = len(cases) - len(kidx)     # mh_step cases come first
+    for k in range(0, nmh, 500):
+        idxs = list(range(k, min(k + 500, nmh)))
         rows = []
         for i in idxs:
             c = cases[i]
@@ -180,13 +204,18 @@ Proof. vm_compute. reflexivity. Qed.
 
 def diagnose(ctx, path, idxs, cases):
     txt = open(path).read().split("Lemma shard_ok")[0]
-    txt += "Eval vm_compute in (failing (agrees Lt) cases).\n"
+    if "kagrees" in open(path).read():
+        txt += "Eval vm_compute in (failing (kagrees Lt) kcases).\n"
+    else:
+        txt += "Eval vm_compute in (failing (agrees Lt) cases).\n"
     ok, out = ctx.coq_eval(txt)
     return [idxs[j] for j in common.parse_nat_list(out) if j < len(idxs)]
 
 
 def oracle(c):
     """the property read literally on (u, acceptance_prob, moved, state)"""
+    if c.get("kind") == "kernel":
+        return kl.oracle(c)
     p, u = c["p"], c["u"]
     if isinstance(p, str) or not (0 <= p <= 1):
         return f"acceptance probability {p} outside [0,1]"
@@ -234,6 +263,8 @@ def replay(rp) -> int:
     from liesel.goose.mh import mh_step
     import liesel.goose as gs
     c = rp["replay"].get("case", rp["replay"])
+    if c.get("kind") == "kernel":
+        return kl.replay_case(c)
     if "seed" not in c:
         print("replay file names no concrete input (broken lemma only):", rp["replay"].get("broken"))
         return 0
